@@ -1,25 +1,49 @@
 //go:build verif
 
-// Package vfs stands in for the few functions of package os that the snapshot
-// writers/loaders of silence and nflog use. With no file system installed it is
-// package os; with one installed (Install) every operation goes to a logging
-// in-memory file system whose operation log is used to build crash images (C11).
+// Package vfs stands in for the functions of package os that the snapshot writers/loaders of
+// silence and nflog use (and a few more, so that realistic edits of that code still compile).
+// With no file system installed it is package os; with one installed (Install) every operation
+// goes to a logging in-memory file system whose operation log is used to build crash images (C11).
 package vfs
 
 import (
 	"errors"
+	"io"
 	"io/fs"
 	"os"
 	"sort"
 	"sync"
+	"time"
+)
+
+const (
+	O_RDONLY = os.O_RDONLY
+	O_WRONLY = os.O_WRONLY
+	O_RDWR   = os.O_RDWR
+	O_APPEND = os.O_APPEND
+	O_CREATE = os.O_CREATE
+	O_EXCL   = os.O_EXCL
+	O_SYNC   = os.O_SYNC
+	O_TRUNC  = os.O_TRUNC
+)
+
+type (
+	FileMode = os.FileMode
+	FileInfo = os.FileInfo
+)
+
+var (
+	ErrNotExist = os.ErrNotExist
+	ErrExist    = os.ErrExist
 )
 
 // Op is one logged file-system operation.
 type Op struct {
-	Kind string // create | write | sync | close | rename | open
+	Kind string // create (new directory entry) | truncate | write | sync | close | rename | remove
 	Path string
 	To   string // rename target
 	Data []byte // write payload
+	Off  int64  // write offset
 }
 
 // FS is a logging in-memory file system.
@@ -62,19 +86,25 @@ func (f *FS) Names() []string {
 }
 
 type File struct {
-	real *os.File
-	fs   *FS
-	name string
-	rd   bool
-	off  int
-	open bool
+	real   *os.File
+	fs     *FS
+	name   string
+	rd, wr bool
+	app    bool
+	off    int64
+	open   bool
 }
 
 func IsNotExist(err error) bool { return os.IsNotExist(err) }
+func IsExist(err error) bool    { return os.IsExist(err) }
 
-func Open(name string) (*File, error) {
+func Open(name string) (*File, error) { return OpenFile(name, O_RDONLY, 0) }
+
+func Create(name string) (*File, error) { return OpenFile(name, O_RDWR|O_CREATE|O_TRUNC, 0o666) }
+
+func OpenFile(name string, flag int, perm FileMode) (*File, error) {
 	if cur == nil {
-		r, err := os.Open(name)
+		r, err := os.OpenFile(name, flag, perm)
 		if err != nil {
 			return nil, err
 		}
@@ -83,28 +113,26 @@ func Open(name string) (*File, error) {
 	f := cur
 	f.mu.Lock()
 	defer f.mu.Unlock()
-	if _, ok := f.Files[name]; !ok {
+	_, exists := f.Files[name]
+	acc := flag & (O_RDONLY | O_WRONLY | O_RDWR)
+	x := &File{fs: f, name: name, open: true, rd: acc == O_RDONLY || acc == O_RDWR, wr: acc == O_WRONLY || acc == O_RDWR, app: flag&O_APPEND != 0}
+	switch {
+	case !exists && flag&O_CREATE == 0:
 		return nil, &fs.PathError{Op: "open", Path: name, Err: fs.ErrNotExist}
-	}
-	return &File{fs: f, name: name, rd: true, open: true}, nil
-}
-
-func Create(name string) (*File, error) {
-	if cur == nil {
-		r, err := os.Create(name)
-		if err != nil {
-			return nil, err
+	case exists && flag&O_CREATE != 0 && flag&O_EXCL != 0:
+		return nil, &fs.PathError{Op: "open", Path: name, Err: fs.ErrExist}
+	case !exists:
+		if err := f.log(Op{Kind: "create", Path: name}); err != nil {
+			return nil, &fs.PathError{Op: "open", Path: name, Err: err}
 		}
-		return &File{real: r}, nil
+		f.Files[name] = []byte{}
+	case flag&O_TRUNC != 0 && x.wr:
+		if err := f.log(Op{Kind: "truncate", Path: name}); err != nil {
+			return nil, &fs.PathError{Op: "open", Path: name, Err: err}
+		}
+		f.Files[name] = []byte{}
 	}
-	f := cur
-	f.mu.Lock()
-	defer f.mu.Unlock()
-	if err := f.log(Op{Kind: "create", Path: name}); err != nil {
-		return nil, &fs.PathError{Op: "create", Path: name, Err: err}
-	}
-	f.Files[name] = []byte{}
-	return &File{fs: f, name: name, open: true}, nil
+	return x, nil
 }
 
 func Rename(from, to string) error {
@@ -126,6 +154,75 @@ func Rename(from, to string) error {
 	return nil
 }
 
+func Remove(name string) error {
+	if cur == nil {
+		return os.Remove(name)
+	}
+	f := cur
+	f.mu.Lock()
+	defer f.mu.Unlock()
+	if _, ok := f.Files[name]; !ok {
+		return &fs.PathError{Op: "remove", Path: name, Err: fs.ErrNotExist}
+	}
+	if err := f.log(Op{Kind: "remove", Path: name}); err != nil {
+		return err
+	}
+	delete(f.Files, name)
+	return nil
+}
+
+func ReadFile(name string) ([]byte, error) {
+	if cur == nil {
+		return os.ReadFile(name)
+	}
+	f := cur
+	f.mu.Lock()
+	defer f.mu.Unlock()
+	b, ok := f.Files[name]
+	if !ok {
+		return nil, &fs.PathError{Op: "open", Path: name, Err: fs.ErrNotExist}
+	}
+	return append([]byte{}, b...), nil
+}
+
+func WriteFile(name string, data []byte, perm FileMode) error {
+	x, err := OpenFile(name, O_WRONLY|O_CREATE|O_TRUNC, perm)
+	if err != nil {
+		return err
+	}
+	if _, err := x.Write(data); err != nil {
+		x.Close()
+		return err
+	}
+	return x.Close()
+}
+
+type memInfo struct {
+	name string
+	size int64
+}
+
+func (m memInfo) Name() string       { return m.name }
+func (m memInfo) Size() int64        { return m.size }
+func (m memInfo) Mode() fs.FileMode  { return 0o644 }
+func (m memInfo) ModTime() time.Time { return time.Time{} }
+func (m memInfo) IsDir() bool        { return false }
+func (m memInfo) Sys() any           { return nil }
+
+func Stat(name string) (FileInfo, error) {
+	if cur == nil {
+		return os.Stat(name)
+	}
+	f := cur
+	f.mu.Lock()
+	defer f.mu.Unlock()
+	b, ok := f.Files[name]
+	if !ok {
+		return nil, &fs.PathError{Op: "stat", Path: name, Err: fs.ErrNotExist}
+	}
+	return memInfo{name, int64(len(b))}, nil
+}
+
 func (x *File) Name() string {
 	if x.real != nil {
 		return x.real.Name()
@@ -140,14 +237,34 @@ func (x *File) Write(p []byte) (int, error) {
 	f := x.fs
 	f.mu.Lock()
 	defer f.mu.Unlock()
-	if !x.open || x.rd {
+	if !x.open || !x.wr {
 		return 0, fs.ErrClosed
 	}
-	if err := f.log(Op{Kind: "write", Path: x.name, Data: append([]byte{}, p...)}); err != nil {
+	b := f.Files[x.name]
+	if x.app {
+		x.off = int64(len(b))
+	}
+	if err := f.log(Op{Kind: "write", Path: x.name, Data: append([]byte{}, p...), Off: x.off}); err != nil {
 		return 0, err
 	}
-	f.Files[x.name] = append(f.Files[x.name], p...)
+	f.Files[x.name] = WriteAt(b, p, x.off)
+	x.off += int64(len(p))
 	return len(p), nil
+}
+
+func (x *File) WriteString(s string) (int, error) { return x.Write([]byte(s)) }
+
+// WriteAt returns b with p written at offset off (extending with zeros if needed).
+func WriteAt(b, p []byte, off int64) []byte {
+	end := int(off) + len(p)
+	out := b
+	if end > len(out) {
+		out = append(out, make([]byte, end-len(out))...)
+	} else {
+		out = append([]byte{}, out...)
+	}
+	copy(out[off:], p)
+	return out
 }
 
 func (x *File) Read(p []byte) (int, error) {
@@ -158,11 +275,11 @@ func (x *File) Read(p []byte) (int, error) {
 	f.mu.Lock()
 	defer f.mu.Unlock()
 	b := f.Files[x.name]
-	if x.off >= len(b) {
-		return 0, errEOF
+	if x.off >= int64(len(b)) {
+		return 0, io.EOF
 	}
 	n := copy(p, b[x.off:])
-	x.off += n
+	x.off += int64(n)
 	return n, nil
 }
 
@@ -187,7 +304,7 @@ func (x *File) Close() error {
 		return fs.ErrClosed
 	}
 	x.open = false
-	if x.rd {
+	if !x.wr {
 		return nil
 	}
 	return f.log(Op{Kind: "close", Path: x.name})
